@@ -19,7 +19,7 @@ def parsePayload (s : String) : Option Bytes :=
 
 def parseWSched (s : String) : Option (List WAct) :=
   if s = "-" then some [] else
-  (s.splitOn ",").mapM fun t => if t = "x" then some WAct.fail else t.toNat?.map WAct.accept
+  (s.splitOn ",").mapM fun t => if t = "x" ∨ t = "w" ∨ t = "t" ∨ t = "r" then some WAct.fail else t.toNat?.map WAct.accept
 
 def showW (r : Sink × Outcome Unit) : String :=
   (match r.2 with | .ok _ => "ok" | .err _ => "E" | .panic _ => "P") ++ " " ++ showOut r.1.out
@@ -41,8 +41,23 @@ def specWrite (x224 : Bool) (payload : Bytes) (ws : List WAct) : String :=
     let (ok, out) := specDeliver (frame.length + 1) frame ws []
     (if ok then "ok " else "E ") ++ showOut out
 
+/-- several messages on one link: the sink (bytes delivered so far, remaining schedule) is
+    threaded through; the oracle is the reference framing of each message in turn -/
+def c14multi (ps : List Bytes) (w : List WAct) : String :=
+  let rec go : List Bytes → Sink → List String → (List String × Sink)
+    | [], s, acc => (acc.reverse, s)
+    | p :: rest, s, acc =>
+      let (s', r) := Tpkt.write p s
+      go rest s' ((match r with | .ok _ => "ok" | .err _ => "E" | .panic _ => "P") :: acc)
+  let (res, s) := go ps ⟨[], w⟩ []
+  ",".intercalate res ++ " " ++ showOut s.out
+
 def c14 (toks : List String) : String :=
   match toks with
+  | ["tpkt_writes", ps, w] =>
+    match (ps.splitOn "/").mapM parsePayload, parseWSched w with
+    | some ps, some w => c14multi ps w ++ "\t-"
+    | _, _ => "bad-case"
   | [op, p, w] =>
     match parsePayload p, parseWSched w with
     | some p, some w =>
